@@ -567,6 +567,23 @@ class Body:
                             push_op(dl, o)
         return seen_defs, args
 
+    def ret_locals(self):
+        """locals whose whole value is handed on unchanged to the return place (`_0 = move _k`): {0, k, ...} — an inlined helper's
+        own return slot is such a local"""
+        if getattr(self, "_retl", None) is None:
+            out = {0}
+            grew = True
+            while grew:
+                grew = False
+                for loc, st in self.all_assigns():
+                    rv = st["rv"]
+                    if st["place"]["local"] in out and not st["place"]["proj"] and rv["k"] == "use" and rv["op"]["k"] in ("copy", "move") \
+                            and not rv["op"]["place"]["proj"] and rv["op"]["place"]["local"] not in out:
+                        out.add(rv["op"]["place"]["local"])
+                        grew = True
+            self._retl = out
+        return self._retl
+
     # -- iteration helpers ---------------------------------------------------
     def calls(self, include_cleanup=True):
         for b in range(self.n):
